@@ -163,7 +163,7 @@ class F:
                     return node
                 dn = next(iter(rd))
                 val = gen.get(dn, {}).get(node.id)
-                if val is None or M._is_fresh_container(val) or dn == self.at and False:
+                if val is None or M._is_fresh_container(val, outer.node, node.id):
                     return node
                 r = T(dn, self.depth - 1).visit(copy.deepcopy(val))
                 return ast.copy_location(r, node)
@@ -480,7 +480,7 @@ class F:
             states = [(lits, env)]
             if node.kind == "stmt" and isinstance(node.stmt, (ast.Assign, ast.AnnAssign)) and node.stmt.value is not None:
                 tg = node.stmt.targets if isinstance(node.stmt, ast.Assign) else [node.stmt.target]
-                if len(tg) == 1 and isinstance(tg[0], ast.Name) and tg[0].id not in keep and not M._is_fresh_container(node.stmt.value):
+                if len(tg) == 1 and isinstance(tg[0], ast.Name) and tg[0].id not in keep and not M._is_fresh_container(node.stmt.value, self.node, tg[0].id):
                     val = subst(node.stmt.value, env)
                     states = []
                     for l2, e2 in forks(val, list(lits)):
@@ -512,6 +512,39 @@ class F:
                     dfs(b, l2, seen | {n}, env_)
 
         dfs(g.entry, [], frozenset(), {})
+        return out
+
+    def node_paths(self, limit: int = 512):
+        """All acyclic entry -> exit/return paths of a loop-free function: (literals, statements on the path in order)."""
+        g = self.g
+        out = []
+
+        def dfs(n, lits, path):
+            if len(out) > limit:
+                raise ValueError("too many paths")
+            if n == g.raise_exit:
+                return
+            if n == g.exit:
+                out.append((list(lits), [g.nodes[i].stmt for i in path if g.nodes[i].kind == "stmt" and g.nodes[i].stmt is not None]))
+                return
+            if n in path:
+                raise ValueError("cycle")
+            node = g.nodes[n]
+            for b, lab in g.succ[n]:
+                if lab in ("exc", "assert"):
+                    continue
+                l2 = lits
+                if node.kind == "test" and lab in ("T", "F"):
+                    a, neg = M.polarity(node.exprs[0])
+                    key = norm(a)
+                    truth = (lab == "T") != neg
+                    if any(k == key and tv != truth for k, tv in lits):
+                        continue
+                    if not any(k == key for k, tv in lits):
+                        l2 = lits + [(key, truth)]
+                dfs(b, l2, path + [n])
+
+        dfs(g.entry, [], [])
         return out
 
     def region_paths(self, start_edge: Edge, stops: Iterable[int], limit: int = 512):
@@ -560,6 +593,33 @@ class F:
         if not terms:
             return ast.Constant(value=False)
         return terms[0] if len(terms) == 1 else ast.BoolOp(op=ast.Or(), values=terms)
+
+    def dict_filter(self, value: ast.AST):
+        """Recognise `value` as a filtered copy of a mapping: `{k: v for k, v in SRC if COND}` or a name that is built by
+        `D = {}; for k, v in SRC: [conditions] D[k] = v`.  Returns {src, key, val, kept (condition AST), nodes} or None."""
+        g = self.g
+        v = value
+        if isinstance(v, ast.Name):
+            ev = self.xe(v)
+            if isinstance(ev, ast.DictComp):
+                v = ev
+        if isinstance(v, ast.DictComp) and len(v.generators) == 1 and isinstance(v.generators[0].target, ast.Tuple) and len(v.generators[0].target.elts) == 2:
+            gen = v.generators[0]
+            kk, vv = norm(gen.target.elts[0]), norm(gen.target.elts[1])
+            if norm(v.key) != kk or norm(v.value) != vv:
+                return None
+            conds = [c for i in gen.ifs for c in M.conjuncts(i)]
+            kept = ast.BoolOp(op=ast.And(), values=conds) if len(conds) > 1 else conds[0] if conds else ast.Constant(value=True)
+            return {"src": self.x(gen.iter), "key": kk, "val": vv, "kept": kept, "nodes": []}
+        if isinstance(v, ast.Name):
+            for n in g.nodes:
+                if n.kind == "for" and isinstance(n.stmt.target, ast.Tuple) and len(n.stmt.target.elts) == 2:
+                    kk, vv = norm(n.stmt.target.elts[0]), norm(n.stmt.target.elts[1])
+                    sts = [i for i, val, b in self.stores(f"{v.id}[{kk}]") if norm(val) == vv]
+                    others = [i for i, val, b in self.stores(f"{v.id}[__k]") if i not in sts]
+                    if sts and not others:
+                        return {"src": self.x(n.stmt.iter), "key": kk, "val": vv, "kept": self.condition_of((n.idx, "iter"), [n.idx], sts), "nodes": sts}
+        return None
 
     def witness(self, dst: int, nodes: Iterable[int] = (), src: Optional[int] = None) -> List[str]:
         return self.g.path_text(self.g.find_path(dst, avoid=set(nodes), src=src))
